@@ -9,6 +9,7 @@ Differential exploration on lattices of meshes / states / materials:
  (d) Region(uniform=True) == general region (vectors and matrices).
 """
 
+import itertools
 import warnings
 
 import numpy as np
@@ -57,6 +58,7 @@ def plan(tier, seed):
     # a hand-written Newton loop that updates the field IN PLACE (field += dx), three load levels
     for fk in ("3d", "ps", "axi"):
         cases.append(dict(key=f"condensed-inplace/{fk}/bulk=50.0", kind="ni-inplace", fk=fk, bulk=50.0, seed=seed, cost=10))
+        cases.append(dict(key=f"condensed-bulk-history/{fk}", kind="ni-bulk", fk=fk, seed=seed, cost=10))
     for fam in ("quad", "hexahedron", "quad9"):
         for n in (2, 3, 4, 5) if fam != "hexahedron" else (2, 3, 4):
             cases.append(dict(key=f"uniform/{fam}/n={n}", kind="uniform", fam=fam, n=n, seed=seed, cost=4))
@@ -392,6 +394,63 @@ def run(case):
             c.cmp(f"level{lv}/J", "converged volume ratios, in-place Newton loop", a[2], b[2], 1e-7)
             c.cmp(f"level{lv}/p", "converged pressures, in-place Newton loop", 1 + a[1] / case["bulk"], 1 + b[1] / case["bulk"], 1e-7)
         return c.result(dict(case=case["key"], cells=int(mesh.ncells)))
+    if kind == "ni-bulk":
+        # histories of the bulk modulus on the condensed body: every sequence (<= 3 solves, increasing load) over two bulk moduli,
+        # (a) one long-lived body whose `bulk` attribute is changed between the solves, (b) a new body per solve created with
+        # state= the previous body's state and the new bulk modulus; after every solve u, p, J must be those of the explicit
+        # three-field formulation with the bulk modulus in effect, solved from scratch
+        fk = case["fk"]
+        if fk == "3d":
+            mesh = fem.Cube(n=3)
+            Rg, F = fem.RegionHexahedron, fem.Field
+        else:
+            mesh = fem.Rectangle(a=(0.0, 0.4 if fk == "axi" else 0.0), b=(1.0, 1.4 if fk == "axi" else 1.0), n=3)
+            Rg, F = fem.RegionQuad, (fem.FieldAxisymmetric if fk == "axi" else fem.FieldPlaneStrain)
+        region = Rg(mesh)
+        kw = dict(axisymmetric=True) if fk == "axi" else (dict(planestrain=True) if fk == "ps" else {})
+        sym = (False, True, False)[: mesh.dim] + (False,) * (3 - mesh.dim)
+        moves = (-0.08, -0.16, -0.24)
+        bulks = (20.0, 80.0)
+        ref = {}
+
+        def explicit(K, mv):
+            if (K, mv) not in ref:
+                fm = fem.FieldsMixed(region, n=3, **kw)
+                bm = fem.SolidBody(fem.NearlyIncompressible(fem.NeoHooke(mu=1.0), bulk=K), fm)
+                bounds, lc = fem.dof.uniaxial(fm, clamped=True, move=mv, axis=0, sym=sym)
+                ext0 = fem.dof.apply(fm, bounds, lc["dof0"])
+                r_ = fem.newtonrhapson(items=[bm], x0=fm, dof0=lc["dof0"], dof1=lc["dof1"], ext0=ext0, tol=1e-11, verbose=False)
+                ref[(K, mv)] = (r_.x[0].values.copy(), r_.x[1].values.ravel().copy(), r_.x[2].values.ravel().copy())
+            return ref[(K, mv)]
+
+        nh = 0
+        for n_ in (1, 2, 3):
+            for seq in itertools.product(bulks, repeat=n_):
+                if n_ > 1 and len(set(seq)) == 1:
+                    continue  # (constant bulk modulus: the plain condensed cases)
+                for how in ("attribute", "state="):
+                    fc = fem.FieldContainer([F(region, dim=mesh.dim)])
+                    body = fem.SolidBodyNearlyIncompressible(fem.NeoHooke(mu=1.0), fc, bulk=seq[0])
+                    bounds, lc = fem.dof.uniaxial(fc, clamped=True, move=0.0, axis=0, sym=sym)
+                    for i, K in enumerate(seq):
+                        if i > 0:
+                            if how == "attribute":
+                                body.bulk = K
+                            else:
+                                body = fem.SolidBodyNearlyIncompressible(fem.NeoHooke(mu=1.0), fc, bulk=K, state=body.results.state)
+                        bounds["move"].update(moves[i])
+                        ext0 = fem.dof.apply(fc, bounds, lc["dof0"])
+                        res = fem.newtonrhapson(items=[body], x0=fc, dof0=lc["dof0"], dof1=lc["dof1"], ext0=ext0, tol=1e-11, verbose=False)
+                        body.assemble.vector(fc)  # settled
+                        c.trans += res.iterations
+                        u, p_, J_ = explicit(K, moves[i])
+                        lab = f"bulks={list(seq[: i + 1])}/{how}/solve{i}"
+                        c.cmp(lab + "/u", "displacements after a change of the bulk modulus: condensed vs explicit at the bulk modulus in effect", fc[0].values, u, 1e-7)
+                        c.cmp(lab + "/J", "volume ratios after a change of the bulk modulus", body.results.state.J, J_, 1e-7)
+                        c.cmp(lab + "/p", "pressures after a change of the bulk modulus", 1 + body.results.state.p / K, 1 + p_ / K, 1e-7)
+                    nh += 1
+        c.outcomes.add(f"bulk-histories={nh}")
+        return c.result(dict(case=case["key"], cells=int(mesh.ncells), histories=nh))
     if kind == "uniform":
         fam, n = case["fam"], case["n"]
         if fam == "hexahedron":
